@@ -14,6 +14,7 @@
 //   planx-multibend  staircases crossing the same edge several times
 //   planx-random     random orthogonal routes, coarse pool (multiples of 8)
 //   planx-near       random orthogonal routes, coordinates from a fine pool (quarter steps around few lines)
+//   planx-bendmerge  bends of different edges 0 / 0.25 / 0.5 / 0.75 apart in x and y (NearbyObjectFinder threshold 0.5, open box)
 #ifndef C19_PLANARISE_H
 #define C19_PLANARISE_H
 
@@ -256,16 +257,29 @@ static void pxRandom(vh::Rng &r, PxSpec &s, bool fine, bool thorough) {
     }
 }
 
+static void pxBendMerge(vh::Rng &r, PxSpec &s) {
+    // H-then-V edges whose bends lie within quarter steps of one another around (40, 0)
+    static const double offs[] = {0, 0.25, -0.25, 0.5, -0.5, 0.75, -0.75, 1.0};
+    int n = (int) r.range(2, 5);
+    for (int j = 0; j < n; ++j) {
+        double dx = offs[r.range(0, 7)], dy = offs[r.range(0, 7)];
+        if (j == 0) { dx = 0; dy = 0; }
+        int u = s.addNode(-16.0 * (j + 1), dy), v = s.addNode(40 + dx, 40 + 16.0 * (j + 1));
+        PxRoute mid; mid.push_back(Avoid::Point(40 + dx, dy));
+        if (r.coin()) s.addEdge(u, v, mid); else s.addEdge(v, u, mid);
+    }
+}
+
 // appended after every other class of harness/c19.cpp, so earlier case indices do not move
 static long runPlanX(const vh::Args &a, long k, bool thorough) {
-    static const char *tags[8] = {"planx-grid", "planx-ttouch", "planx-overlap", "planx-short",
-                                  "planx-through", "planx-multibend", "planx-random", "planx-near"};
-    long nX = (thorough ? 4000 : 800) * a.scale;
+    static const char *tags[9] = {"planx-grid", "planx-ttouch", "planx-overlap", "planx-short",
+                                  "planx-through", "planx-multibend", "planx-random", "planx-near", "planx-bendmerge"};
+    long nX = (thorough ? 4500 : 900) * a.scale;
     if (a.n >= 0) nX = a.n / 4;
     for (long c = 0; c < nX; ++c, ++k) {
         if (!a.want(k)) continue;
         vh::Rng r = vh::caseRng(a.seed, k);
-        int cls = (int) (c % 8);
+        int cls = (int) (c % 9);
         PxSpec s;
         switch (cls) {
         case 0: pxGrid(r, s); break;
@@ -275,7 +289,8 @@ static long runPlanX(const vh::Args &a, long k, bool thorough) {
         case 4: pxThrough(r, s); break;
         case 5: pxMultiBend(r, s); break;
         case 6: pxRandom(r, s, false, thorough); break;
-        default: pxRandom(r, s, true, thorough); break;
+        case 7: pxRandom(r, s, true, thorough); break;
+        default: pxBendMerge(r, s); break;
         }
         vh::beginCase(k, tags[cls]);
         printf("kind planx\n");
